@@ -61,9 +61,17 @@ def cnf_set_form(s):
 
 
 # ---- CNF ---------------------------------------------------------------------------------------------------------------
-def do_cnf(kind, env, f):
+def do_cnf(kind, env, f, first=None):
     from pysmt import rewritings as rw
     m = env.formula_manager
+    if first is not None:
+        # the same converter instance has already converted another formula (sharing sub-formulas with this one)
+        conv = rw.PolarityCNFizer(env) if kind == "polarity" else rw.CNFizer(env)
+        conv.convert(first)
+        if kind == "cnf_as_set":
+            s = conv.convert(f)
+            return m.And([m.Or(list(c)) for c in s]), s
+        return conv.convert_as_formula(f), None
     if kind == "cnf":
         return rw.cnf(f, env), None
     if kind == "cnf_as_set":
@@ -74,10 +82,10 @@ def do_cnf(kind, env, f):
     raise ValueError(kind)
 
 
-def check_cnf(kind, env, f, timeout_ms=5000):
+def check_cnf(kind, env, f, timeout_ms=5000, first=None):
     name = kind
     try:
-        g, as_set = do_cnf(kind, env, f)
+        g, as_set = do_cnf(kind, env, f, first)
     except Exception as e:
         return {"name": name, "status": "viol", "signature": "%s/raises:%s" % (kind, type(e).__name__),
                 "describe": "%s(%s) raises %r" % (kind, f.serialize(), e),
@@ -276,8 +284,32 @@ def mk(kind):
     return chk
 
 
+def gen_cnf_reuse(env, tier):
+    forms = gen_cnf(env, "quick")
+    sel = forms[::5] if tier == "quick" else forms[::2]
+    out = []
+    for k, f1 in enumerate(sel):
+        for f2 in sel[k + 1::7][:6]:
+            for kind in ("cnf", "cnf_as_set", "polarity"):
+                out.append((kind, f1, f2))
+                out.append((kind, f2, f1))
+    return out
+
+
+def check_cnf_reuse(env, inst, timeout_ms=5000):
+    kind, f1, f2 = inst
+    r = check_cnf(kind, env, f2, timeout_ms, first=f1)
+    r["name"] = "cnf-reuse"
+    if r["status"] == "viol":
+        r["signature"] = "cnf-reuse/" + r["signature"]
+        r["describe"] = "after converting %s with the same converter: %s" % (f1.serialize(), r["describe"])
+        r["replay"] = {"k": "cnf-reuse", "kind": kind, "first": bp.to_bp(f1), "formula": bp.to_bp(f2)}
+    return r
+
+
 for _k in ("cnf", "cnf_as_set", "polarity"):
     tv.register("c11-" + _k, gen_cnf, mk(_k))
+tv.register("c11-cnf-reuse", gen_cnf_reuse, check_cnf_reuse)
 tv.register("c11-ackermann", gen_ack, check_ack)
 tv.register("c11-ackermann-reuse", gen_ack_reuse, check_ack_reuse)
 
@@ -285,7 +317,9 @@ tv.register("c11-ackermann-reuse", gen_ack_reuse, check_ack_reuse)
 def replay(data):
     env = tv.fresh_env()
     f = bp.from_bp(data["formula"], env)
-    if data["k"] == "ack-reuse":
+    if data["k"] == "cnf-reuse":
+        r = check_cnf_reuse(env, (data["kind"], bp.from_bp(data["first"], env), f), timeout_ms=20000)
+    elif data["k"] == "ack-reuse":
         r = check_ack_reuse(env, (bp.from_bp(data["first"], env), f), timeout_ms=20000)
     elif data["k"] == "ack":
         r = check_ack(env, f, timeout_ms=20000)
@@ -309,7 +343,7 @@ def run(run, only=None):
                                     "interpretations of the original symbols"}
     run.outside = ["formulas with quantifiers (outside the procedures' fragment)", "more than 6 applications per symbol"]
     run.assumptions = ["z3 native semantics (tr_z3.py)"]
-    for fam in ("cnf", "cnf_as_set", "polarity", "ackermann", "ackermann-reuse"):
+    for fam in ("cnf", "cnf_as_set", "polarity", "cnf-reuse", "ackermann", "ackermann-reuse"):
         if only and fam not in only:
             continue
         tv.run_family(run, "c11-" + fam, run.tier)
